@@ -131,6 +131,7 @@ def _mutants():
     from selftest.mutate import Mutant as M
     S = "_string.py"
     return [
+        M("proxy-through-instance-class", "_wrappers.py", "lambda self, *x, **y: torch.nn.Module.__call__(self, *x, **y)", "lambda self, *x, **y: super(self.__class__, self).__call__(*x, **y)", "dispatch-is-subclass-safe"),
         M("first-eos-on-empty-dimension", S, "if tok.size(dim) == 0:\n        return tok.sum(dim, dtype=torch.long)\n", "", "index-reduction-guarded-for-the-empty-dimension"),
         M("scaled-after-padding", S, "return prefix_ers", "return prefix_ers * mult", "prefix-padding-written-last"),
         M("padding-before-norm", S, "prefix_ers = prefix_ers * mult\n        if norm:", "prefix_ers = prefix_ers.masked_fill(torch.arange(prefix_ers.size(0), device=device).unsqueeze(1).ge(hyp_lens + (0 if exclude_last else 1)), padding) * mult\n        if norm:", "prefix-padding-written-last"),
